@@ -254,6 +254,28 @@ void runC18(const Scenario& sc, vf::Result& res) {
     }
     unlink(path.c_str());
     Parameters::instance().set("BookFile", "");
+    // the built-in book: positions of random games and along the book's own answers
+    {
+        Position p = TextIO::readFEN(TextIO::startPosFEN);
+        UndoInfo ui;
+        for (int ply = 0; ply < 24 && res.verdict == "ok"; ply++) {
+            std::vector<Move> lm;
+            uci::legalMoves(p, lm);
+            if (lm.empty()) break;
+            Book book(false);
+            Move m;
+            book.getBookMove(p, m);
+            res.counters["builtin_book_probes"]++;
+            if (!m.isEmpty()) {
+                res.counters["builtin_book_moves"]++;
+                if (!uci::containsMove(lm, m))
+                    res.violate("C18", "illegal-book-move", "built-in book returned " + TextIO::moveToUCIString(m) + " which is illegal in " + TextIO::toFEN(p));
+            }
+            book.getAllBookMoves(p);
+            Move next = (!m.isEmpty() && r.chance(0.7) && uci::containsMove(lm, m)) ? m : lm[r.below(lm.size())];
+            p.makeMove(next, ui);
+        }
+    }
     res.info["casehash"] = vf::hex64(vf::fnv1a(good));
     res.counters["nontrivial"] = W.recs.size() > 3;
 }
